@@ -82,8 +82,8 @@ theorem takeWhile_all {β : Type} (p : β → Bool) : ∀ (l : List β) (x : β)
       · exact takeWhile_all p ys x h
     · rw [takeWhile_cons_of_neg hy] at h; cases h
 
-theorem findPivotDoc_some {θ : Nat} {arr : List S} {bl pl pd : Nat} (hs : SortedByDoc arr)
-    (hwf : ∀ s, s ∈ arr → WF s)
+theorem findPivotDoc_some_lt {θ : Nat} {arr : List S} {bl pl pd : Nat} (hs : SortedByDoc arr)
+    (hlt : ∀ s, s ∈ arr → ∀ p, p ∈ s.rest → p.1 < T)
     (h : findPivotDoc θ arr = some (bl, pl, pd)) : PivotShape θ arr bl pl pd := by
   unfold findPivotDoc at h
   simp only [sc_zero] at h
@@ -134,10 +134,15 @@ theorem findPivotDoc_some {θ : Nat} {arr : List S} {bl pl pd : Nat} (hs : Sorte
             omega
       · intro x hx
         rw [hpd]; exact hs.2.2 x hx s (by simp)
-      · have hswf : WF s := hwf s (by rw [hl]; simp)
+      · have hslt := hlt s (by rw [hl]; simp)
         by_cases hr : s.rest = []
         · have := doc_eq_T_of_nil hr; omega
-        · have := doc_lt_T hswf.lt hr; omega
+        · have := doc_lt_T hslt hr; omega
+
+theorem findPivotDoc_some {θ : Nat} {arr : List S} {bl pl pd : Nat} (hs : SortedByDoc arr)
+    (hwf : ∀ s, s ∈ arr → WF s)
+    (h : findPivotDoc θ arr = some (bl, pl, pd)) : PivotShape θ arr bl pl pd :=
+  findPivotDoc_some_lt hs (fun s hs' => (hwf s hs').lt) h
 
 theorem findPivotDoc_none {θ : Nat} {arr : List S} (hs : SortedByDoc arr)
     (hwf : ∀ s, s ∈ arr → WF s) (h : findPivotDoc θ arr = none) : ∀ d, d < T → tot arr d ≤ θ := by
